@@ -15,10 +15,14 @@ PROP = "C01"
 HOSTILE = 'said "x" $y {{7*7}} {% raw %} bot refuse'
 
 
-def orders(max_rails):
+def orders(max_rails, reduced=False):
     out = [()]
     for n in range(1, max_rails + 1):
         out.extend(itertools.permutations(rw.IN_RAILS, n))
+    if reduced:
+        # quick tier: all single rails, three of the six ordered pairs (both orders of one pair + one more)
+        keep = {(), ("in1",), ("in2",), ("in3",), ("in1", "in2"), ("in2", "in1"), ("in3", "in1")}
+        out = [o for o in out if o in keep]
     return out
 
 
@@ -174,7 +178,7 @@ def tasks(tier):
         plan = [(3, 2), (2, 3)]
     seen = set()
     for max_rails, turns in plan:
-        for order in orders(max_rails):
+        for order in orders(max_rails, reduced=(tier == "quick")):
             for dialog in (False, True):
                 for exc in (False, True):
                     key = (order, dialog, exc, turns)
